@@ -20,11 +20,12 @@ package interp
 // distinguish error panics from other panics.
 
 import (
-	"strconv"
 	"fmt"
 	"go/token"
 	"go/types"
 	"reflect"
+	"sort"
+	"strconv"
 	"strings"
 	"unsafe"
 
@@ -1351,9 +1352,9 @@ func ext۰reflect۰Value۰MapKeys(fr *frame, args []value) value {
 // MapIter: the object is a *value holding the real struct shape; iteration state
 // lives in a per-path side table.
 type mapIterState struct {
-	m   rval
-	it  *gmapIter
-	cur *gentry
+	m       rval
+	it      *gmapIter
+	cur     *gentry
 	started bool
 }
 
@@ -1623,6 +1624,40 @@ func ext۰reflect۰Value۰MethodByName(fr *frame, args []value) value {
 	}
 	name := fr.i.concValue(args[1]).(string)
 	return fr.i.methodByName(r, name)
+}
+
+// Method(i): the i-th method of the value's method set (exported methods in name order).
+func ext۰reflect۰Value۰Method(fr *frame, args []value) value {
+	i := fr.i
+	r := rv(args[0])
+	if !r.valid {
+		panic(i.valueError("reflect.Value.Method", reflect.Invalid))
+	}
+	var names []string
+	if isIfaceType(r.t) {
+		it := r.t.Underlying().(*types.Interface)
+		for k := 0; k < it.NumMethods(); k++ {
+			if n := it.Method(k).Name(); token.IsExported(n) {
+				names = append(names, n)
+			}
+		}
+	} else {
+		ms := i.prog.MethodSets.MethodSet(r.t)
+		for k := 0; k < ms.Len(); k++ {
+			if n := ms.At(k).Obj().Name(); token.IsExported(n) {
+				names = append(names, n)
+			}
+		}
+	}
+	sort.Strings(names)
+	idx := int(i.concInt(args[1]))
+	if idx < 0 || idx >= len(names) {
+		panic(strPanic(i, "reflect: Method index out of range"))
+	}
+	if isIfaceType(r.t) && r.v.(iface).t == nil {
+		panic(strPanic(i, "reflect: Method on nil interface value"))
+	}
+	return i.methodByName(r, names[idx])
 }
 
 func ext۰reflect۰Value۰Call(fr *frame, args []value) value {
